@@ -385,17 +385,24 @@ def check(prop, tier="quick", seed=0):
     apply_relevance(results)
     # items with an obligation that is not discharged are re-examined once, serially and with a 3x time budget, so
     # that a verdict never depends on how busy the machine was (a timeout must not turn into an alarm)
-    redo = [i for i, r in enumerate(results) if r["error"] or any(o["status"] != "discharged" for o in r["obligations"])]
-    if redo and len(redo) <= 40:
+    # (only UNDECIDED obligations and tool errors are worth a second look: a refutation is a model, not a timeout)
+    redo = [i for i, r in enumerate(results) if r["error"] or any(o["status"] not in ("discharged", "refuted") for o in r["obligations"])]
+    if redo and len(redo) <= 60:
         from symjnp import engine as _eng
         old = _eng.TSCALE
         _eng.TSCALE = old * 3
+        os.environ["SYMJNP_TSCALE"] = str(old * 3)     # (spawned workers read the budget multiplier from the environment)
         try:
-            for i in redo:
-                results[i] = _work(items[i])
+            if len(redo) <= 2:
+                new = [_work(items[i]) for i in redo]
+            else:
+                new = run_items([items[i] for i in redo], jobs=min(8, len(redo)))   # fewer workers than cores: budget, not load, decides
+            for i, r in zip(redo, new):
+                results[i] = r
                 results[i]["retried"] = True
         finally:
             _eng.TSCALE = old
+            os.environ["SYMJNP_TSCALE"] = str(old)
         apply_relevance(results)
     known = load_known()
     obligations = [dict(o, item=f"{r['name']}[{r['label']}]" if r["label"] else r["name"]) for r in results for o in r["obligations"]]
